@@ -148,6 +148,7 @@ def run(ctx, rep):
     # C05.10: a dirty slice dropped from the cache (instead of written back) is lost to every later flush + fsync
     from . import c02
     c02.drop_rule(f, rep, 'C05.10')
+    partial_write_rule(f, P, rep, 'C05.11')
     impls = [im for im in f.impls if im.get('trait') == 'ops::Qcow2IoOps']
     rep.floor('Qcow2IoOps implementations', len(impls), 3)
     for im in impls:
@@ -175,3 +176,47 @@ def run(ctx, rep):
             rep.violation('C05.2', 'C05.2:%s' % name, body.where(0),
                           'the fsync implementation of %s can return Ok without calling a sync primitive '
                           '(sync_all / fsync): the barrier the ordered metadata flush relies on does not exist' % name)
+
+
+def partial_write_rule(f, P, rep, rid):
+    """A write of part of a cached table (one block of the L1 / refcount table, one slice of a bigger buffer) takes its
+    bytes from `base + d` and must put them at `table offset + d`: the file offset and the memory source are displaced by
+    the same request parameters.  Decided by data dependence in every function that builds the written slice from raw
+    parts: the integer parameters the source pointer depends on are exactly those the file offset depends on."""
+    from ..guard import Deps
+    rep.rule(rid, 'in a function that writes a slice built with from_raw_parts, the file offset of the write depends on the same '
+                  'integer parameters as the source pointer (a block taken from the middle of a table goes to the middle of the table)')
+    n = 0
+    for b in f.body_list:
+        if '::tests::' in b.path or not b.path.startswith('dev::'):
+            continue
+        raws = [(bi, t) for bi, t in b.calls() if (t.get('fn') or '').endswith('slice::from_raw_parts')]
+        writes = [(bi, t) for bi, t in b.calls() if (t.get('fn') or '').endswith('::call_write') and len(t['args']) >= 3]
+        if not raws or not writes:
+            continue
+        if b.is_coroutine or b.kind == 'Closure':
+            ups = f.types[b.locals[1]].get('u') or []
+            ints = {i for i, t in enumerate(ups) if f.types[t]['k'] == 'prim' and f.types[t].get('n', '')[:1] in 'ui'
+                    and f.types[t].get('n') not in ('u8',)}
+        else:
+            ints = {i - 1 for i in range(1, b.argc + 1) if f.types[b.locals[i]]['k'] == 'prim'
+                    and f.types[b.locals[i]].get('n', '')[:1] in 'ui'}
+        dp = Deps(P, b)
+        for wbi, wt in writes:
+            bufdeps = dp.of_operand(wt['args'][2], (wbi, 10 ** 6))
+            if not any(x[0] == 'fn' and x[1].endswith('slice::from_raw_parts') for x in bufdeps):
+                continue
+            offp = {x[1] for x in dp.of_operand(wt['args'][1], (wbi, 10 ** 6)) if x[0] == 'in' and x[1] in ints}
+            for rbi, rt in raws:
+                ptrp = {x[1] for x in dp.of_operand(rt['args'][0], (rbi, 10 ** 6)) if x[0] == 'in' and x[1] in ints}
+                n += 1
+                ok = ptrp == offp
+                fn = short(b.path)
+                rep.ob(rid, '%s: write at %s of the slice built at %s' % (fn, b.where(wbi), b.where(rbi)), ok,
+                       'source pointer depends on integer parameters %s, file offset on %s' % (sorted(ptrp), sorted(offp)))
+                if not ok:
+                    rep.violation(rid, '%s:%s' % (rid, fn), b.where(wbi),
+                                  '%s writes a slice whose source pointer is displaced by parameter(s) %s while the file offset is '
+                                  'displaced by %s: a block taken from inside the table is written somewhere else in the file (over '
+                                  'entries that lead to synced data), and its own place is never written' % (fn, sorted(ptrp), sorted(offp)))
+    rep.floor('partial table writes (from_raw_parts + call_write)', n, 1)
